@@ -451,3 +451,47 @@ def assumptions_of(vfile: str):
 
 def rng_for(seed: int, stream: str) -> random.Random:
     return random.Random(f"{seed}/{stream}")
+
+
+# --------------------------------------------------------------------------
+# isolation: run a function in a forked child (fresh interpreter state, hard timeout)
+# --------------------------------------------------------------------------
+def forked(fn, *args, timeout=60):
+    """Returns ("ok", value) | ("exc", repr) | ("timeout", None) | ("died", status)."""
+    import pickle
+    import select
+    import signal
+    r, w = os.pipe()
+    pid = os.fork()
+    if pid == 0:
+        try:
+            os.close(r)
+            try:
+                out = ("ok", fn(*args))
+            except BaseException as exc:  # noqa: BLE001
+                out = ("exc", f"{type(exc).__name__}: {exc}"[:500])
+            data = pickle.dumps(out)
+            with os.fdopen(w, "wb") as fh:
+                fh.write(data)
+        finally:
+            os._exit(0)
+    os.close(w)
+    chunks = []
+    deadline = time.time() + timeout
+    with os.fdopen(r, "rb") as fh:
+        while True:
+            left = deadline - time.time()
+            if left <= 0:
+                os.kill(pid, signal.SIGKILL)
+                os.waitpid(pid, 0)
+                return ("timeout", None)
+            ready, _, _ = select.select([fh], [], [], min(left, 1.0))
+            if ready:
+                b = fh.read()
+                chunks.append(b)
+                break
+    _, status = os.waitpid(pid, 0)
+    data = b"".join(chunks)
+    if not data:
+        return ("died", status)
+    return pickle.loads(data)
